@@ -29,6 +29,7 @@ from nemoguardrails.colang import parse_colang_file
 from nemoguardrails.colang.runtime import Runtime
 from nemoguardrails.colang.v1_0.runtime.flows import (
     FlowConfig,
+    apply_history_alterations,
     compute_context,
     compute_next_steps,
 )
@@ -389,10 +390,15 @@ class RuntimeV1_0(Runtime):
         next_steps = []
 
         if context_updates:
-            # We check if at least one key changed
+            # We check if at least one key changed. The flows are replayed without the
+            # turns hidden by `hide_prev_turn`, so we compare with the context they see.
+            visible_context = context
+            if any(e["type"] == "hide_prev_turn" for e in events):
+                visible_context = compute_context(apply_history_alterations(events))
+
             changes = False
             for k, v in context_updates.items():
-                if context.get(k) != v:
+                if visible_context.get(k) != v:
                     changes = True
                     break
 
